@@ -344,5 +344,6 @@ theorem on_source : Evl.Generated.dispatchFacts =
     { sendsGuardedByCtx := true, noLiveBareSend := true, collectorHasCtxArm := true, collectorChecksClosed := true,
       closeAfterWait := true, closeOnce := true, addBeforeRootCall := true, addBeforeSpawn := true,
       doProcessDefersDone := true, rangeChecksCtxBeforeStart := true, childGetsReturnedEvent := true,
-      sinkFlagFromType := true, childrenSpawnedWithGo := true, rootCalledInline := true } := by decide
+      sinkFlagFromType := true, childrenSpawnedWithGo := true, rootCalledInline := true,
+      errorEndsTraversalFirst := true } := by decide
 end Evl.C03
